@@ -117,8 +117,9 @@ def load_known() -> List[dict]:
 
 
 def finish(ctx: Ctx, seed: int, evidence_path: Optional[Path], extra_cov: Optional[dict] = None,
-           out=sys.stdout) -> int:
+           out=None) -> int:
     """Match violations against known findings, print the verdict lines, write the evidence, return exit code."""
+    out = out or sys.stdout
     known = [k for k in load_known() if k["property"] == ctx.prop and k.get("status") == "known"]
     used_known = set()
     viol, und = [], []
